@@ -312,7 +312,7 @@ func (s *c12Scenario) body(c *mc.Ctx) {
 			return netsim.Answer{Status: 404}
 		}
 		if src.kind == "ocsp" {
-			return w.serveOCSP(src, ocspByName(ocspClassNames[ocspCls[src.cert][src.idx]]))
+			return w.serveOCSP(src, ocspRep(ocspCls[src.cert][src.idx], src))
 		}
 		return w.serveCRL(src, crlByName(crlClassNames[crlCls[src.cert][src.idx]]))
 	}
@@ -516,7 +516,7 @@ func c12Spellings(c *mc.Ctx) {
 			return netsim.Answer{Status: 404}
 		}
 		if src.kind == "ocsp" {
-			return w.serveOCSP(src, ocspByName(ocspClassNames[oc[src.idx]]))
+			return w.serveOCSP(src, ocspRep(oc[src.idx], src))
 		}
 		return w.serveCRL(src, crlByName(crlClassNames[cc[src.idx]]))
 	}
